@@ -118,6 +118,45 @@ def cmd_run(name, ids):
     return 0
 
 
+def matrix_one(n, ids):
+    d = os.path.join(SEEDED, n)
+    work = '/tmp/seedrepo-%s' % n
+    shutil.rmtree(work, ignore_errors=True)
+    os.makedirs(work)
+    sh('git -C /repo archive HEAD | tar -x -C %s' % work)
+    sh('cp /repo/config.h /repo/config.mk %s/' % work)
+    rc, out = sh('git apply --unsafe-paths --directory=%s %s/patch.diff' % (work, d), cwd='/')
+    if rc:
+        rc, out = sh('patch -p1 < %s/patch.diff' % d, cwd=work)
+    if rc:
+        shutil.rmtree(work, ignore_errors=True)
+        return n, None
+    res = {}
+    for pid in ids:
+        rc, out = sh('VERIF_REPO=%s ./check %s --tier quick' % (work, pid), VERIF, timeout=1800)
+        fired = [l for l in out.split('\n') if l.startswith('VIOLATION')]
+        inst = [l.strip() for l in out.split('\n') if l.startswith('  instance')]
+        res[pid] = {'exit': rc, 'violations': len(fired), 'instances': inst[:5],
+                    'broken': [l for l in out.split('\n') if l.startswith('ANALYSIS-BROKEN')][:3]}
+    shutil.rmtree(work, ignore_errors=True)
+    caught = [p for p, v in res.items() if v['exit'] == 1]
+    broken = [p for p, v in res.items() if v['exit'] == 2]
+    json.dump({'checks_run': ids, 'caught_by': caught, 'analysis_broken': broken, 'detail': res,
+               'ran_on': 'scratch copy of /repo HEAD %s with patch.diff applied (VERIF_REPO), removed afterwards' % sh('git -C /repo rev-parse --short HEAD')[1].strip(),
+               'when': time.strftime('%Y-%m-%d %H:%M')}, open(os.path.join(d, 'result.json'), 'w'), indent=1)
+    return n, (caught, broken)
+
+
+def cmd_matrix(par=4):
+    from concurrent.futures import ThreadPoolExecutor
+    names = sorted(n for n in os.listdir(SEEDED) if os.path.exists(os.path.join(SEEDED, n, 'patch.diff')))
+    ids = claimed()
+    with ThreadPoolExecutor(max_workers=par) as ex:
+        for n, r in ex.map(lambda n: matrix_one(n, ids), names):
+            print('%-8s %s' % (n, 'PATCH DOES NOT APPLY' if r is None else 'caught_by=%s broken=%s' % r), flush=True)
+    return 0
+
+
 def cmd_table():
     for n in sorted(os.listdir(SEEDED)):
         d = os.path.join(SEEDED, n)
@@ -134,3 +173,4 @@ if __name__ == '__main__':
     if a[0] == 'import': sys.exit(cmd_import(a[1], a[2]))
     if a[0] == 'run': sys.exit(cmd_run(a[1], a[2:]))
     if a[0] == 'table': sys.exit(cmd_table())
+    if a[0] == 'matrix': sys.exit(cmd_matrix(int(a[1]) if len(a) > 1 else 4))
